@@ -4,6 +4,8 @@
 -/
 import BufrModel.Coder.Encode
 import BufrModel.Gen.PyConstants
+import BufrModel.Gen.PyEncoder
+import BufrModel.Lemmas.NbitsSrc
 namespace Bufr
 open PyGen.constants
 
@@ -51,5 +53,25 @@ theorem C02_src_const_nbits_diff_general (raws : List (Option Int)) (nbits : Nat
             | none => (do fieldUInt (← missingPattern nd) nd)
             | some v => fieldUInt (v - lo) nd) := by
   rfl
+
+/-! ### `encoder.py nbits_for_uint` (regenerated into `Gen/PyEncoder.lean`) -/
+
+/-- `nbits_for_uint(x)` — `bin(x)[2:]`, its length, one more when `binx.count('1') == len(binx)` — is the
+    encoder model's width rule `nbitsForUInt`, for every non-negative int (the encoder calls it with
+    `max - min + 1 ≥ 1`).  The generated function has no exception path (its type is `Int`, not `Except`). -/
+theorem C02_src_nbits_for_uint (x : Nat) :
+    PyGen.encoder.nbits_for_uint (x : Int) = (nbitsForUInt x : Int) :=
+  NbitsSrc.gen_nbits_for_uint x
+
+/-- hence the width computed by the source reserves the all-ones pattern and is the least such width -/
+theorem C02_src_nbits_for_uint_least (x : Nat) :
+    x + 2 ≤ 2 ^ (PyGen.encoder.nbits_for_uint (x : Int)).toNat ∧
+    ∀ k, x + 2 ≤ 2 ^ k → (PyGen.encoder.nbits_for_uint (x : Int)).toNat ≤ k := by
+  rw [C02_src_nbits_for_uint]
+  exact ⟨nbitsForUInt_fits x, nbitsForUInt_least x⟩
+
+/-- outside the domain of the model (`Nat`): a negative argument is not an error in Python,
+    `bin(-5)[2:] = 'b101'`, so the result is 4 (checked on the real function) -/
+example : PyGen.encoder.nbits_for_uint (-5) = 4 := by decide
 
 end Bufr
